@@ -341,7 +341,12 @@ def falsify_C12(ctx):
             cex.append({"kind": "from_trace_failed", "op": f"dmin {term}", "impl": r[0]})
             continue
         if d[-1] == 0:
-            continue  # all recorded spans are zero: the curve is unusable (number_arrivals divides by zero); degenerate
+            # all recorded spans are zero: number_arrivals divides by the last entry (finding F12)
+            pr = real([f"na {term} {rng.randint(1, 9)}"])[0]
+            if not pr.isdigit():
+                cex.append({"kind": "derived_curve_all_zero_panics", "op": f"na {term} 1", "impl": pr, "dmin": d,
+                            "dmin_all_zero": all(x == 0 for x in d), "source": "trace"})
+            continue
         if tbl is None:
             cex.append({"kind": "from_trace_na_failed", "op": f"nas {term} 0 {tr[-1]-tr[0]+3}", "impl": r[1]})
             continue
@@ -382,7 +387,13 @@ def falsify_C12(ctx):
             eq_upto = cover
         else:
             dv = parse_list(r[2])
-            if not dv or dv[-1] == 0:
+            if dv and dv[-1] == 0:
+                pr = real([f"na {term} {rng.randint(1, 9)}"])[0]
+                if not pr.isdigit():
+                    cex.append({"kind": "derived_curve_all_zero_panics", "op": f"na {term} 1", "impl": pr, "dmin": dv,
+                                "dmin_all_zero": all(x == 0 for x in dv), "source": ss})
+                continue
+            if not dv:
                 continue
             eq_upto = dv[-1] - 1
         nontrivial.add(term)
